@@ -252,6 +252,8 @@ def profile_for(pid, tier):
         G["root_kinds"] = {"vmap": 5, "repeat": 3, "static": 1, "dimap": 1}
         P["ops"].update({"index_edit": 4, "importance": 5})
         G["lens"] = [0, 1, 2, 2, 3, 3]
+        G["axis1"] = 0.6
+        G["vec_param"] = 0.3
     elif pid == "C13":
         G["root_kinds"] = {"switch": 5, "or_else": 2, "mix": 2, "static": 1, "vmap": 1}
         P["oob_index"] = 0.25
